@@ -148,7 +148,6 @@ Proof.
 Qed.
 
 (* ================= a rejection always carries a diagnostic ================= *)
-Definition strict {A} (p : parser A) := forall i a r, p i = Ok a r -> length r < length i.
 Definition noerr {A} (p : parser A) := forall i e, p i <> Err e.
 Definition has_msg (ne : nat * ekind) : Prop := get_message (snd ne) <> None.
 Definition emsg {A} (p : parser A) := forall i e, p i = Err e -> Exists has_msg e.
